@@ -48,6 +48,13 @@ def jobs(tier):
             j.functions = ["_vnacal_new_solve_simple (rank test of the over-determined route)"]
             j.bound = "UE14 2x2, two over-determined systems; the rank reported by the QR kernel symbolic (0..unknowns)"
             J.append(j)
+    # E12: the UE14 -> E12 conversion divides by every Um entry of each column system
+    for (r, c) in (((2, 1), (2, 2)) if tier == "quick" else ((1, 1), (2, 1), (1, 2), (2, 2), (3, 2), (3, 3))):
+        J.append(V.Job("e12_convert.%dx%d" % (r, c), "vnacal/c19_e12.c", "h_e12_convert", ["vnacal_layout.c"],
+                       defines=["-DCAL_ROWS=%d" % r, "-DCAL_COLS=%d" % c, "-DVERIF_BUILTIN_MEM"], unwind=12, union_struct=True,
+                       kind="proof", canary=((r, c) == (2, 2)), functions=["convert_ue14_to_e12"],
+                       bound="E12 %dx%d; every term any number (loops bounded by the concrete dimensions)" % (r, c),
+                       timeout=300, cbmc_flags=["--no-leak", "--slice-formula"]))
     return J
 
 
